@@ -1,6 +1,7 @@
 (* Dispatch.v — the single entry point extracted to OCaml.  Opcode table:
      1  spec quantize            fmt r o dy                      -> code
      2  spec flag conditions     fmt r o dy                      -> ovf unf inacc
+     4  spec quantize (list)     fmt r o [dy]                    -> codes, any-ovf any-unf any-inacc
      3  NP primitive             sub-op args                     -> value   (NP-layer validation)
     10  model set_val (real)     fmt r o raw arr vd              -> codes, flags, read-back values
 *)
@@ -41,6 +42,10 @@ Definition dispatch (req : list Z) : list Z :=
   | 2 :: t => run (f <- dfmt ;; r <- drmode ;; o <- domode ;; v <- ddy ;; dret (f, r, o, v))
                 (fun '(f, r, o, v) => ebool (ovf_cond f r v) ++ ebool (unf_cond f r v) ++ ebool (inacc_cond f r o v)) t
   | 3 :: op :: t => np_prim op t
+  | 4 :: t => run (f <- dfmt ;; r <- drmode ;; o <- domode ;; vs <- dlist ddy ;; dret (f, r, o, vs))
+                (fun '(f, r, o, vs) => elist (fun v => [quantize f r o v]) vs
+                   ++ ebool (existsb (ovf_cond f r) vs) ++ ebool (existsb (unf_cond f r) vs)
+                   ++ ebool (existsb (inacc_cond f r o) vs)) t
   | 10 :: t => run (f <- dfmt ;; r <- drmode ;; o <- domode ;; raw <- dbool ;; a <- darr ;; vd <- dvdt ;;
                     dret (f, r, o, raw, a, vd))
                 (fun '(f, r, o, raw, a, vd) => eoutcome (ewres f) (set_val_real f r o raw a vd)) t
